@@ -1,8 +1,460 @@
+/-
+C15 — structural queries on a reaction system match its reaction graph.
+
+Property theorems only; the model is `Model/RSysGraph.lean` (a mirror of chempy/reactionsystem.py),
+helper lemmas and the specification-level notions (`Adj`, `Reach`, `elemTotal`, `compsOf`, `Rxn.positive`, `okeys`)
+are in `Proofs/RSysGraph.lean`.
+-/
 import ChemModel.Proofs.RSysGraph
 
 namespace ChemModel.C15
 open ChemModel.RSysGraph
 
-theorem placeholder : (1 : Nat) = 1 := rfl
+/-! ## split
+
+`splitGroups ks` is the list of `(reaction indices, substance keys)` groups that `ReactionSystem.split` computes
+(greedy grouping, then the pairwise fusion loop) for reactions whose key sets are `ks`. -/
+
+/-- "sub-systems whose reaction lists partition the original reactions": every reaction index `0..nr-1` occurs in
+exactly one group, exactly once -/
+theorem split_partition (ks : List (List String)) :
+    ((splitGroups ks).flatMap (·.1)).Perm (List.range ks.length) :=
+  (splitGroups_inv ks).2.1
+
+/-- "whose substance sets are pairwise disjoint" — the exit condition of the fusion loop as an invariant -/
+theorem split_disjoint (ks : List (List String)) :
+    (splitGroups ks).Pairwise (fun g h => ∀ k, k ∈ g.2 → k ∉ h.2) :=
+  (splitGroups_inv ks).2.2
+
+/-- the substance set of a group is exactly the union of the key sets of its reactions -/
+theorem split_substances (ks : List (List String)) (g : Group) (hg : g ∈ splitGroups ks) (k : String) :
+    k ∈ g.2 ↔ ∃ a ∈ g.1, k ∈ keysAt ks a :=
+  ((splitGroups_inv ks).1 g hg).keys k
+
+/-- "each connected through shared species": any two reactions of a group are linked by a chain of reactions OF THAT
+GROUP in which consecutive reactions share a species -/
+theorem split_connected (ks : List (List String)) (g : Group) (hg : g ∈ splitGroups ks) :
+    ∀ a ∈ g.1, ∀ b ∈ g.1, Reach ks g.1 a b :=
+  ((splitGroups_inv ks).1 g hg).conn
+
+/-- "one per connected component": two reactions end up in the same group iff they are connected in the reaction
+graph of the whole system (transitive fusion, whatever the order of the reactions) -/
+theorem split_components (ks : List (List String)) (a b : Nat) (ha : a < ks.length) :
+    (∃ g ∈ splitGroups ks, a ∈ g.1 ∧ b ∈ g.1) ↔ Reach ks (List.range ks.length) a b := by
+  obtain ⟨hok, hperm, hdisj⟩ := splitGroups_inv ks
+  have hsub : ∀ g ∈ splitGroups ks, ∀ x ∈ g.1, x ∈ List.range ks.length := by
+    intro g hg x hx
+    exact hperm.subset (mem_flatIdx.mpr ⟨g, hg, hx⟩)
+  have hcover : ∀ x, x ∈ List.range ks.length → ∃ g ∈ splitGroups ks, x ∈ g.1 := by
+    intro x hx
+    exact mem_flatIdx.mp (hperm.symm.subset hx)
+  constructor
+  · rintro ⟨g, hg, hag, hbg⟩
+    exact ((hok g hg).conn a hag b hbg).mono (hsub g hg)
+  · intro h
+    induction h with
+    | refl =>
+      obtain ⟨g, hg, hx⟩ := hcover a (by simpa using ha)
+      exact ⟨g, hg, hx, hx⟩
+    | tail hab hc hadj ih =>
+      rename_i b c
+      obtain ⟨g, hg, hag, hbg⟩ := ih
+      obtain ⟨g', hg', hcg'⟩ := hcover c hc
+      obtain ⟨k, hkb, hkc⟩ := hadj
+      have h1 : k ∈ g.2 := ((hok g hg).keys k).mpr ⟨b, hbg, hkb⟩
+      have h2 : k ∈ g'.2 := ((hok g' hg').keys k).mpr ⟨c, hcg', hkc⟩
+      by_cases e : g = g'
+      · subst e; exact ⟨g, hg, hag, hcg'⟩
+      · exact absurd h2 (pairwise_disj_forall hdisj hg hg' e k h1)
+
+/-- "regardless of reaction order": list the same reactions in another order (`σ` sends the position of a reaction in
+`ks` to its position in `ks'`, `τ` back); then two reactions are grouped together by `split` of the one list iff they
+are by `split` of the other. -/
+theorem split_order_independent (ks ks' : List (List String)) (σ τ : Nat → Nat) (hlen : ks'.length = ks.length)
+    (hσ : ∀ a, a < ks.length → σ a < ks.length ∧ keysAt ks' (σ a) = keysAt ks a ∧ τ (σ a) = a)
+    (hτ : ∀ b, b < ks.length → τ b < ks.length ∧ σ (τ b) = b)
+    (a b : Nat) (ha : a < ks.length) (hb : b < ks.length) :
+    (∃ g ∈ splitGroups ks, a ∈ g.1 ∧ b ∈ g.1) ↔ (∃ g ∈ splitGroups ks', σ a ∈ g.1 ∧ σ b ∈ g.1) := by
+  rw [split_components ks a b ha, split_components ks' (σ a) (σ b) (by rw [hlen]; exact (hσ a ha).1), hlen]
+  constructor
+  · intro h
+    exact Reach.relabel σ (fun c hc => ⟨(hσ c hc).1, (hσ c hc).2.1⟩) ha h
+  · intro h
+    have := Reach.relabel (ks := ks') (ks' := ks) τ (fun c hc => ⟨(hτ c hc).1, by
+      have := (hσ (τ c) (hτ c hc).1).2.1
+      rw [(hτ c hc).2] at this
+      exact this.symm⟩) (hσ a ha).1 h
+    rwa [(hσ a ha).2.2, (hσ b hb).2.2] at this
+
+/-- the groups are non-empty and distinct as sets of reactions, so their number is the number of connected
+components: no reaction index lies in two groups -/
+theorem split_groups_unique (ks : List (List String)) (g h : Group) (hg : g ∈ splitGroups ks) (hh : h ∈ splitGroups ks)
+    (a : Nat) (hag : a ∈ g.1) (hah : a ∈ h.1) (hkeys : keysAt ks a ≠ []) : g = h := by
+  obtain ⟨hok, _, hdisj⟩ := splitGroups_inv ks
+  by_contra hne
+  obtain ⟨k, hk⟩ := List.exists_mem_of_ne_nil _ hkeys
+  exact pairwise_disj_forall hdisj hg hh hne k (((hok g hg).keys k).mpr ⟨a, hag, hk⟩)
+    (((hok h hh).keys k).mpr ⟨a, hah, hk⟩)
+
+/-- the sub-systems returned by `rsys.split(checks=…)`: one per group, holding the group's reactions (in the group's
+order) and, in the parent's order, exactly the parent's substances of the group's substance set; each passes the
+requested checks. With `checks=()` split never raises (in particular `self.rxns[ri]` is never out of range). -/
+theorem split_systems (s : RSys) (checks : List Check) (l : List (List Nat × RSys)) (h : split s checks = .ok l) :
+    List.Forall₂ (PartOf s) (splitGroups (s.rxns.map Rxn.keys)) l ∧
+    (∀ p ∈ l, ∀ c ∈ checks, runCheck p.2 c = true) ∧
+    ∃ l', split s [] = .ok l' := by
+  obtain ⟨h1, h2⟩ := buildGroups_ok h
+  refine ⟨h1, h2, ?_⟩
+  apply buildGroups_nochecks
+  intro g hg a ha
+  have := (splitGroups_inv (s.rxns.map Rxn.keys)).2.1.subset (mem_flatIdx.mpr ⟨g, hg, ha⟩)
+  simpa using this
+
+/-! ## categorize_substances -/
+
+/-- "categorising substances returns exactly the species that are only ever net-produced (accumulated), only
+net-consumed (depleted), present with zero net effect (unaffected), or absent (nonparticipating)".
+Read off the code: "present" / "absent" are decided by the COEFFICIENTS (`all_prod > 0` somewhere / all
+coefficients zero), see `nonparticipating_iff_absent` for the relation to `Reaction.keys()`.
+A substance that is net-produced by one reaction and net-consumed by another is in no category (`categorize_both`). -/
+theorem categorize_spec (s : RSys) (checks : List Check) (c : Categories) (h : categorize s checks = .ok c) (k : String) :
+    (k ∈ c.accumulated ↔ k ∈ s.keys ∧ (∃ r ∈ s.rxns, 0 < r.net k) ∧ ∀ r ∈ s.rxns, 0 ≤ r.net k) ∧
+    (k ∈ c.depleted ↔ k ∈ s.keys ∧ (∃ r ∈ s.rxns, r.net k < 0) ∧ ∀ r ∈ s.rxns, r.net k ≤ 0) ∧
+    (k ∈ c.unaffected ↔ k ∈ s.keys ∧ (∀ r ∈ s.rxns, r.net k = 0) ∧ ∃ r ∈ s.rxns, 0 < r.allProd k) ∧
+    (k ∈ c.nonparticipating ↔ k ∈ s.keys ∧ ∀ r ∈ s.rxns, r.allReac k = 0 ∧ r.allProd k = 0) := by
+  obtain ⟨h1, h2, h3, h4, _⟩ := categorize_ok h
+  rw [h1, h2, h3, h4]
+  simp [List.mem_filter, categoryOf_accumulated, categoryOf_depleted,
+    categoryOf_unaffected, categoryOf_nonparticipating]
+
+/-- the four categories are pairwise disjoint, and a substance is in none of them exactly when it is net-consumed by
+one reaction and net-produced by another -/
+theorem categorize_both (s : RSys) (checks : List Check) (c : Categories) (h : categorize s checks = .ok c) (k : String)
+    (hk : k ∈ s.keys) :
+    (k ∉ c.accumulated ∧ k ∉ c.depleted ∧ k ∉ c.unaffected ∧ k ∉ c.nonparticipating ↔
+      (∃ r ∈ s.rxns, r.net k < 0) ∧ ∃ r ∈ s.rxns, 0 < r.net k) ∧
+    ¬ (k ∈ c.accumulated ∧ k ∈ c.depleted) ∧ ¬ (k ∈ c.accumulated ∧ k ∈ c.unaffected) ∧
+    ¬ (k ∈ c.accumulated ∧ k ∈ c.nonparticipating) ∧ ¬ (k ∈ c.depleted ∧ k ∈ c.unaffected) ∧
+    ¬ (k ∈ c.depleted ∧ k ∈ c.nonparticipating) ∧ ¬ (k ∈ c.unaffected ∧ k ∈ c.nonparticipating) := by
+  obtain ⟨h1, h2, h3, h4, _⟩ := categorize_ok h
+  rw [h1, h2, h3, h4, ← categoryOf_both]
+  simp only [List.mem_filter, hk, true_and, decide_eq_true_eq]
+  cases categoryOf s.rxns k <;> simp
+
+/-- when no reaction lists a zero coefficient, "nonparticipating" is exactly "in no reaction's key set"
+(i.e. `substance_participation` is empty) -/
+theorem nonparticipating_iff_absent (s : RSys) (checks : List Check) (c : Categories) (h : categorize s checks = .ok c)
+    (hpos : ∀ r ∈ s.rxns, r.positive) (k : String) :
+    k ∈ c.nonparticipating ↔ k ∈ s.keys ∧ substanceParticipation s k = [] := by
+  rw [(categorize_spec s checks c h k).2.2.2]
+  apply and_congr_right
+  intro _
+  rw [List.eq_nil_iff_forall_not_mem]
+  constructor
+  · intro hall a ha
+    obtain ⟨r, _, hr, hk⟩ := (participationFrom_spec k 0 s.rxns a).mp ha
+    have hmem := List.mem_of_getElem? hr
+    have := Rxn.pos_of_mem_keys (hpos r hmem) hk
+    have := hall r hmem
+    omega
+  · intro hnone r hr
+    obtain ⟨i, hi, rfl⟩ := List.mem_iff_getElem.mp hr
+    have hnk : k ∉ (s.rxns[i]).keys := by
+      intro hk
+      exact hnone i ((participationFrom_spec k 0 s.rxns i).mpr ⟨s.rxns[i], by omega, by simp [hi], hk⟩)
+    constructor
+    · by_contra hne
+      exact hnk (Rxn.mem_keys_of_pos (Or.inl (by omega)))
+    · by_contra hne
+      exact hnk (Rxn.mem_keys_of_pos (Or.inr (by omega)))
+
+/-- DEVIATION (mirrors the code): with an explicit zero coefficient the two queries disagree —
+`Reaction({'A': 0, 'B': 1}, {'C': 1})`: `substance_participation('A') == [0]` but `A` is "nonparticipating". -/
+theorem nonparticipating_zero_coefficient_witness :
+    let r : Rxn := { reac := [("A", 0), ("B", 1)], prod := [("C", 1)] }
+    let s : RSys := ⟨[r], [("A", {name := "A"}), ("B", {name := "B"}), ("C", {name := "C"})]⟩
+    substanceParticipation s "A" = [0] ∧
+      (categorize s []).toOption.map (·.nonparticipating) = some ["A"] := by
+  decide
+
+/-- DEFECT (mirrors the code): a system WITHOUT reactions but with substances makes `categorize_substances` raise
+IndexError instead of reporting every substance as nonparticipating. -/
+theorem categorize_no_reactions_defect_witness :
+    categorize ⟨[], [("A", {name := "A"})]⟩ [] = .error .indexError := by
+  decide
+
+/-! ## identify_equilibria, substance_participation, per_reaction_effect_on_substance -/
+
+/-- forward/backward pairs: `(a, b)` is reported iff `b` is the FIRST reaction after `a` whose total reactant /
+product stoichiometries (over the system's substances) are those of `a` swapped -/
+theorem identify_equilibria_spec (s : RSys) (a b : Nat) :
+    (a, b) ∈ identifyEquilibria s ↔
+      ∃ r1 r2, s.rxns[a]? = some r1 ∧ s.rxns[b]? = some r2 ∧ a < b ∧
+        (∀ k ∈ s.keys, r1.allReac k = r2.allProd k ∧ r1.allProd k = r2.allReac k) ∧
+        ∀ c r, a < c → c < b → s.rxns[c]? = some r → isReverse s.keys r1 r = false := by
+  simp only [identifyEquilibria, identEqFrom_spec, Nat.zero_le, Nat.sub_zero, true_and, firstReverse_spec,
+    List.getElem?_drop, ← isReverse_iff]
+  constructor
+  · rintro ⟨r1, h1, d, r2, hb, hd, hrev, hmin⟩
+    refine ⟨r1, r2, h1, by rw [hb]; exact hd, by omega, hrev, ?_⟩
+    intro c r hac hcb hc
+    refine hmin (c - (a + 1)) r (by omega) ?_
+    rw [show a + 1 + (c - (a + 1)) = c by omega]; exact hc
+  · rintro ⟨r1, r2, h1, h2, hab, hrev, hmin⟩
+    refine ⟨r1, h1, b - (a + 1), r2, by omega, by rw [show a + 1 + (b - (a + 1)) = b by omega]; exact h2, hrev, ?_⟩
+    intro d' r' hd' hr'
+    exact hmin (a + 1 + d') r' (by omega) (by omega) hr'
+
+/-- `substance_participation(k)`: exactly the indices of the reactions having `k` among their keys, ascending -/
+theorem participation_spec (s : RSys) (k : String) :
+    (∀ a, a ∈ substanceParticipation s k ↔ ∃ r, s.rxns[a]? = some r ∧ k ∈ r.keys) ∧
+    (substanceParticipation s k).Pairwise (· < ·) := by
+  refine ⟨fun a => ?_, (participationFrom_sorted k 0 s.rxns).1⟩
+  simp [substanceParticipation, participationFrom_spec]
+
+/-- `per_reaction_effect_on_substance(k)`: exactly the reactions with non-zero net stoichiometry of `k`, with that
+net stoichiometry, in index order -/
+theorem effect_spec (s : RSys) (k : String) :
+    (∀ a n, (a, n) ∈ perReactionEffectOnSubstance s k ↔ ∃ r, s.rxns[a]? = some r ∧ n = r.net k ∧ n ≠ 0) ∧
+    ((perReactionEffectOnSubstance s k).map (·.1)).Pairwise (· < ·) := by
+  refine ⟨fun a n => ?_, (effectFrom_sorted k 0 s.rxns).1⟩
+  simp [perReactionEffectOnSubstance, effectFrom_spec]
+
+/-! ## subset and sums -/
+
+/-- `subset(pred)`: the first system holds exactly the reactions satisfying the predicate, the second the others (both
+in the original order, together a permutation of the original list); each keeps, in the parent's order, exactly the
+substances occurring in one of its reactions. With `checks=()` (the default) it never raises. -/
+theorem subset_spec (s : RSys) (pred : Rxn → Bool) (checks : List Check) (y n : RSys)
+    (h : subset s pred checks = .ok (y, n)) :
+    y.rxns = s.rxns.filter pred ∧ n.rxns = s.rxns.filter (fun r => !pred r) ∧
+    (y.rxns ++ n.rxns).Perm s.rxns ∧
+    (∀ kv, kv ∈ y.substs ↔ kv ∈ s.substs ∧ ∃ r ∈ y.rxns, kv.1 ∈ r.keys) ∧
+    (∀ kv, kv ∈ n.substs ↔ kv ∈ s.substs ∧ ∃ r ∈ n.rxns, kv.1 ∈ r.keys) ∧
+    y.substs.Sublist s.substs ∧ n.substs.Sublist s.substs ∧
+    subset s pred [] = .ok (y, n) := by
+  obtain ⟨rfl, rfl, _, _⟩ := subset_ok h
+  refine ⟨rfl, rfl, ?_, fun kv => mem_newSubstances _ _ _, fun kv => mem_newSubstances _ _ _,
+    List.filter_sublist, List.filter_sublist, subset_nochecks s pred⟩
+  exact List.filter_append_perm pred s.rxns
+
+/-- `a + b` (and `a += b`): the reactions of both in order; the substances of `a` in their order followed by the new
+ones of `b` in theirs; on a common key the Substance object of `b` wins; keys stay unique. -/
+theorem add_spec (a b : RSys) (ha : a.keys.Nodup) (hb : b.keys.Nodup) :
+    (add a b).rxns = a.rxns ++ b.rxns ∧
+    (add a b).keys = a.keys ++ b.keys.filter (fun k => !a.keys.contains k) ∧
+    (∀ k, (add a b).substs.lookup k = (b.substs.lookup k).or (a.substs.lookup k)) ∧
+    (add a b).keys.Nodup ∧
+    iadd a b = add a b := by
+  rw [add_eq_iadd a b ha]
+  refine ⟨rfl, ?_, ?_, ?_, rfl⟩
+  · exact okeys_odictUpdate a.substs b.substs hb
+  · exact fun k => lookup_odictUpdate a.substs b.substs hb k
+  · exact odictUpdate_nodup a.substs b.substs ha
+
+/-! ## per-substance arrays and dictionaries -/
+
+/-- array → dict → array is the identity (for an array of the right length), in substance order -/
+theorem array_dict_roundtrip {α : Type} (s : RSys) (arr : List α) (hk : s.keys.Nodup) (hl : arr.length = s.ns)
+    (raiseOnUnk : Bool) :
+    asPerSubstanceArrayList s arr = .ok arr ∧
+    asPerSubstanceArrayDict s (asPerSubstanceDict s arr) raiseOnUnk = .ok arr := by
+  constructor
+  · simp [asPerSubstanceArrayList, hl]
+  · have hl' : arr.length = s.keys.length := by simpa [RSys.keys, RSys.ns] using hl
+    have h1 := (lookupAll_eq_some (s.keys.zip arr) s.keys arr).mpr (map_lookup_zip s.keys arr hk hl')
+    have h0 := zip_keys_all_known s.keys arr
+    simp only [asPerSubstanceArrayDict, asPerSubstanceDict, h0, h1, Bool.and_false]
+    simp
+
+/-- dict → array lists the dict's values in substance order (so dict → array → dict is the dict restricted to the
+substances, in substance order) -/
+theorem dict_array_roundtrip {α : Type} (s : RSys) (d : List (String × α)) (raiseOnUnk : Bool) (arr : List α)
+    (h : asPerSubstanceArrayDict s d raiseOnUnk = .ok arr) :
+    arr.length = s.ns ∧ s.keys.map (fun k => d.lookup k) = arr.map some ∧
+    (asPerSubstanceDict s arr).map (·.1) = s.keys := by
+  simp only [asPerSubstanceArrayDict] at h
+  split at h
+  · simp at h
+  · split at h
+    · simp at h
+    · rename_i l hl
+      simp only [Except.ok.injEq] at h
+      subst h
+      have := (lookupAll_eq_some d s.keys l).mp hl
+      have hlen : l.length = s.keys.length := by
+        have := congrArg List.length this; simpa using this.symm
+      refine ⟨by simpa [RSys.keys, RSys.ns] using hlen, this, ?_⟩
+      simp only [asPerSubstanceDict]
+      rw [List.map_fst_zip]
+      omega
+
+/-! ## upper_conc_bounds -/
+
+/-- "the elemental upper bound of each species is the least of (element total)/(atoms per molecule)":
+with the default `skip_keys=(0,)` the bound of substance `i` is attained by one of its elements and is ≤ the quotient
+of every one of its elements; it is `inf` exactly when the composition lists no element (only charge, or nothing). -/
+theorem upper_bound_least (s : RSys) (init : List Rat) (bs : List (Option Rat))
+    (h : upperConcBounds s init [0] = .ok bs) :
+    bs.length = s.ns ∧ (compsOf s).length = s.ns ∧
+    ∀ (i : Nat) (comp : Comp), (compsOf s)[i]? = some comp →
+      (∀ b, bs[i]? = some (some b) →
+        (∃ k v, (k, v) ∈ comp ∧ k ≠ 0 ∧ b = elemTotal s init k / (v : Rat)) ∧
+        ∀ k v, (k, v) ∈ comp → k ≠ 0 → b ≤ elemTotal s init k / (v : Rat)) ∧
+      (bs[i]? = some none ↔ ∀ kv ∈ comp, kv.1 = 0) := by
+  obtain ⟨hlen, hclen, hloop⟩ := upperConcBounds_ok h
+  obtain ⟨hbl, hspec⟩ := boundsLoop_spec hloop
+  refine ⟨by omega, hclen, ?_⟩
+  intro i comp hi
+  obtain ⟨l, hl, hb⟩ := hspec i comp hi
+  obtain ⟨hmem, _⟩ := chooseFrom_spec hl
+  constructor
+  · intro b hbi
+    rw [hb] at hbi
+    simp only [Option.some.injEq] at hbi
+    obtain ⟨h1, h2⟩ := boundOf_some hbi
+    refine ⟨(hmem b).mp h1, ?_⟩
+    intro k v hkv hk
+    exact h2 _ ((hmem _).mpr ⟨k, v, hkv, hk, rfl⟩)
+  · rw [hb]
+    simp only [Option.some.injEq, boundOf_none]
+    constructor
+    · intro hnil kv hkv
+      by_contra hne
+      have : elementTotal [0] (init.zip (compsOf s)) kv.1 / (kv.2 : Rat) ∈ l :=
+        (hmem _).mpr ⟨kv.1, kv.2, hkv, hne, rfl⟩
+      rw [hnil] at this; simp at this
+    · intro hall
+      rw [List.eq_nil_iff_forall_not_mem]
+      intro x hx
+      obtain ⟨k, v, hkv, hk, _⟩ := (hmem x).mp hx
+      exact hk (hall (k, v) hkv)
+
+/-- "which no non-negative state with the same element totals exceeds": for physically meaningful compositions
+(non-negative atom counts), every non-negative state `c` having, for every element, the same total as the initial
+state is componentwise ≤ the bounds. -/
+theorem upper_bound_valid (s : RSys) (init c : List Rat) (bs : List (Option Rat))
+    (h : upperConcBounds s init [0] = .ok bs)
+    (hcomp : ∀ comp ∈ compsOf s, ∀ kv ∈ comp, kv.1 ≠ 0 → 0 ≤ kv.2)
+    (hlen : c.length = s.ns) (hnonneg : ∀ x ∈ c, 0 ≤ x)
+    (htot : ∀ k, k ≠ 0 → elemTotal s c k = elemTotal s init k) :
+    ∀ (i : Nat) (x b : Rat), c[i]? = some x → bs[i]? = some (some b) → x ≤ b := by
+  intro i x b hx hb
+  obtain ⟨_, hclen, hloop⟩ := upperConcBounds_ok h
+  have hi : i < (compsOf s).length := by
+    have := (List.getElem?_eq_some_iff.mp hx).1; omega
+  obtain ⟨l, hl, hbi⟩ := (boundsLoop_spec hloop).2 i _ (List.getElem?_eq_getElem hi)
+  obtain ⟨hmem, hv0⟩ := chooseFrom_spec hl
+  rw [hbi] at hb
+  simp only [Option.some.injEq] at hb
+  obtain ⟨k, v, hkv, hk, hbeq⟩ := (hmem b).mp (boundOf_some hb).1
+  have hvne : v ≠ 0 := hv0 k v hkv hk
+  have hvpos : (0 : Rat) < (v : Rat) := by
+    have h0 : 0 ≤ v := hcomp _ (List.getElem_mem hi) (k, v) hkv hk
+    have : 0 < v := by omega
+    exact_mod_cast this
+  have hzip : (c.zip (compsOf s))[i]? = some (x, (compsOf s)[i]) := by
+    rw [List.getElem?_zip_eq_some]; exact ⟨hx, List.getElem?_eq_getElem hi⟩
+  have hle : (v : Rat) * x ≤ elemTotal s c k := by
+    apply le_elementTotal (i := i) (conc := x) (comp := (compsOf s)[i]) _ _ hzip hkv
+    · simpa using hk
+    · intro p hp; exact hnonneg p.1 (List.of_mem_zip hp).1
+    · intro p hp kv hkv' hsk
+      exact hcomp p.2 (List.of_mem_zip hp).2 kv hkv' (by simpa using hsk)
+  rw [htot k hk] at hle
+  rw [hbeq, le_div_iff₀ hvpos]
+  simpa [elemTotal, mul_comm] using hle
+
+/-- DEVIATION (mirrors the code): `skip_keys` is honoured by the accumulation loop only; the second loop hard-codes
+`comp_nr == 0`. Skipping hydrogen makes the bound of every hydrogen-containing species 0 — below its own initial
+concentration (`rs.upper_conc_bounds({'H2': 1}, skip_keys=(0, 1)) == [0.0]`). -/
+theorem upper_bound_skip_keys_defect_witness :
+    upperConcBounds ⟨[], [("H2", {name := "H2", comp := some [(1, 2)]})]⟩ [1] [0, 1] = .ok [some 0] := by
+  decide +kernel
+
+/-! ## constructor: substance ordering, duplicate and key checks -/
+
+/-- `ReactionSystem(rxns, substances, checks=…, sort_substances=…)`: the reactions are kept; the substances are those
+of the argument (a permutation), sorted by key when sorting applies (explicitly, or by default for `None` / a set) and
+in the given order otherwise; a requested check that passed means what its name says. -/
+theorem make_spec (rxns : List Rxn) (arg : SubstArg) (checks : List Check) (sort : Option Bool) (s : RSys)
+    (h : RSys.make rxns arg checks sort = .ok s) :
+    s.rxns = rxns ∧ s.substs.Perm (substancesOf rxns arg).1 ∧
+    (sortApplies rxns arg sort = true → s.substs.Pairwise (fun a b => a.1 ≤ b.1)) ∧
+    (sortApplies rxns arg sort = false → s.substs = (substancesOf rxns arg).1) ∧
+    (Check.substanceKeys ∈ checks → ∀ r ∈ rxns, ∀ k ∈ r.keys, k ∈ s.keys) ∧
+    (Check.duplicate ∈ checks → rxns.Pairwise (fun a b => a.pyEq b = false)) ∧
+    (Check.duplicateNames ∈ checks → (rxns.filterMap (·.name)).Nodup) := by
+  obtain ⟨hff, hs⟩ := make_ok h
+  have hchk := firstFailing_none hff
+  generalize sortApplies rxns arg sort = d at hs ⊢
+  have hperm : s.substs.Perm (substancesOf rxns arg).1 := by
+    cases d
+    · simp only [Bool.false_eq_true, ↓reduceIte] at hs; rw [hs]
+    · simp only [↓reduceIte] at hs; rw [hs]; exact sortSubstances_perm _
+  refine ⟨by cases d <;> simp only [Bool.false_eq_true, ↓reduceIte] at hs <;> rw [hs], hperm, ?_, ?_, ?_, ?_, ?_⟩
+  · intro hd; subst hd; simp only [↓reduceIte] at hs; rw [hs]; exact sortSubstances_sorted _
+  · intro hd; subst hd; simp only [Bool.false_eq_true, ↓reduceIte] at hs; rw [hs]
+  · intro hc r hr k hk
+    have := (checkSubstanceKeys_iff _).mp (hchk _ hc) r hr k hk
+    simp only [RSys.keys, List.mem_map] at this ⊢
+    obtain ⟨kv, hkv, e⟩ := this
+    exact ⟨kv, hperm.symm.subset hkv, e⟩
+  · intro hc
+    have := hchk _ hc
+    simp only [runCheck, checkDuplicate, Bool.not_eq_eq_eq_not, Bool.not_true] at this
+    exact (hasDuplicate_false_iff _).mp this
+  · intro hc
+    have := hchk _ hc
+    simp only [runCheck, checkDuplicateNames] at this
+    exact ((dupNamesLoop_iff [] rxns).mp this).1
+
+/-- `ReactionSystem(rxns)` (substances deduced): exactly the keys occurring in the reactions, in strictly ascending
+(code point lexicographic) order -/
+theorem make_deduced (rxns : List Rxn) (checks : List Check) (s : RSys)
+    (h : RSys.make rxns .none checks none = .ok s) :
+    (∀ k, k ∈ s.keys ↔ ∃ r ∈ rxns, k ∈ r.keys) ∧ s.keys.Pairwise (· < ·) := by
+  obtain ⟨_, hs⟩ := make_ok h
+  simp only [substancesOf, sortApplies, ↓reduceIte] at hs
+  have hperm : s.keys.Perm (okeys (odictOf ((allKeys rxns).map fun k => (k, ({ name := k } : Subst))))) := by
+    rw [hs]; exact (sortSubstances_perm _).map _
+  constructor
+  · intro k
+    rw [hperm.mem_iff, odictOf, mem_okeys_odictUpdate]
+    simp [okeys, allKeys, List.mem_flatMap]
+  · have hsorted : s.keys.Pairwise (· ≤ ·) := by
+      rw [hs]; simp only [RSys.keys]
+      rw [List.pairwise_map]
+      exact sortSubstances_sorted _
+    have hnodup : s.keys.Nodup := hperm.nodup_iff.mpr (odictUpdate_nodup [] _ (by simp [okeys]))
+    refine (hsorted.and hnodup).imp ?_
+    rintro a b ⟨hab, hne⟩
+    by_contra hlt
+    exact hne (String.le_antisymm hab (String.not_lt.mp hlt))
+
+/-! ## the hypotheses are satisfiable: concrete instances -/
+
+/-- four reactions A→B, C→D, B→C (bridging the first two groups), E→E (catalyst only): the greedy pass makes three
+groups, the fusion loop joins the first two through reaction 2 -/
+example : splitGroups [["A", "B"], ["C", "D"], ["B", "C"], ["E", "E"]] =
+    [([0, 2, 1], ["A", "B", "B", "C", "C", "D"]), ([3], ["E", "E"])] := by
+  decide +kernel
+
+/-- 2 H2 + O2 → 2 H2O with a spectator and a catalyst -/
+example :
+    let r : Rxn := { reac := [("H2", 2), ("O2", 1), ("Pt", 1)], prod := [("H2O", 2), ("Pt", 1)] }
+    let s : RSys := ⟨[r], ["H2", "O2", "H2O", "Pt", "N2"].map fun k => (k, { name := k })⟩
+    categorize s [.substanceKeys, .duplicate, .duplicateNames] =
+      .ok ⟨["H2O"], ["H2", "O2"], ["Pt"], ["N2"]⟩ := by
+  decide
+
+/-- bounds for 2 H2 + O2 ⇌ 2 H2O from (2, 1, 0): H2 ≤ min(4/2) , O2 ≤ 2/2, H2O ≤ min(4/2, 2/1); the state (0, 0, 2)
+has the same element totals and meets the bound of H2O -/
+example :
+    let s : RSys := ⟨[], [("H2", { name := "H2", comp := some [(1, 2)] }), ("O2", { name := "O2", comp := some [(8, 2)] }),
+      ("H2O", { name := "H2O", comp := some [(1, 2), (8, 1)] })]⟩
+    upperConcBounds s [2, 1, 0] [0] = .ok [some 2, some 1, some 2] ∧
+      elemTotal s [0, 0, 2] 1 = elemTotal s [2, 1, 0] 1 ∧ elemTotal s [0, 0, 2] 8 = elemTotal s [2, 1, 0] 8 := by
+  decide +kernel
 
 end ChemModel.C15
